@@ -77,6 +77,18 @@ fn check_history(c: &NsCase, rec: &mut Rec) -> Verdict {
             let ns = OwnedNs::make(c.tax.grid()); // cold caches
             for (step, &qi) in order.iter().enumerate() {
                 let q = &queries[qi];
+                // the namespace's other accessors run in between (their answers are not asserted here): nothing they do
+                // may change what the asserted queries answer afterwards
+                if step % 2 == 1 {
+                    let name = match q {
+                        Query::Get(a) | Query::Subtypes(a) | Query::AllSubtypes(a) | Query::Supertypes(a) | Query::AllSupertypes(a) | Query::Inheritance(a) | Query::ChoicesFor(a) | Query::ConjunctsDefs(a) | Query::Fits(a, _) | Query::ReflectFits(_, a) | Query::FilterIsA(_, a) | Query::FitsKind(_, a) => Some(a.clone()),
+                        Query::Reflect(r) => r.keys().next().cloned(),
+                    };
+                    if let Some(a) = name {
+                        let s = Symbol::from(a.as_str());
+                        std::hint::black_box((ns.get().is(&s).len(), ns.get().tags(&s).len(), ns.get().has_subtype(&s), ns.get().conjuncts_defs(&s).len(), ns.get().choices_for(&s).len()));
+                    }
+                }
                 let lib = ask_lib(ns.get(), q);
                 let v = compare(q, &lib, &expected[qi]);
                 if let Verdict::Fail { sig, msg } = v {
@@ -628,7 +640,7 @@ pub fn probe_schedule(args: &[String]) -> i32 {
 }
 
 pub fn run(ctx: &mut Ctx) {
-    ctx.rule("histories (deterministic): generated query sequences on a freshly built namespace in four orders (each query twice in a row, reversed, rotated, forward-then-reverse); every answer must equal the stateless subtype-graph model, and association/relationship answers must equal those of a cold namespace (real defs, and generated worlds of relationship defs - transitive or not, `reciprocalOf` declared on one side, both or none - with tag defs, records pointing at each other and 3-24 has_relationship queries in a generated order; def_of_dict / entity_type of records with several unrelated entity markers repeated on cold and warm namespaces and from four threads must always name the same def); schedules: 2-16 threads started on a barrier, each issuing a generated query list against one cold namespace (generated taxonomy or the real defs) while a generated per-thread plan (nothing / yield / sleep 50us / spin) is applied at the caches' critical points through the sched_point hook; every answer of every thread must equal the model, no panic, completion within 30 s (a stuck schedule is re-run in a child process before it is called a deadlock); stress: 16 threads x 200 queries on cold real-defs namespaces; non-trivial: a schedule in which the hook observed two threads inside the same cache-miss window / a history of >= 3 queries; distinct by case");
+    ctx.rule("histories (deterministic): generated query sequences on a freshly built namespace in four orders (each query twice in a row, reversed, rotated, forward-then-reverse); every answer must equal the stateless subtype-graph model while the namespace's other accessors (is, tags, has_subtype, conjuncts_defs, choices_for) are called in between, and association/relationship answers must equal those of a cold namespace (real defs, and generated worlds of relationship defs - transitive or not, `reciprocalOf` declared on one side, both or none - with tag defs, records pointing at each other and 3-24 has_relationship queries in a generated order; def_of_dict / entity_type of records with several unrelated entity markers repeated on cold and warm namespaces and from four threads must always name the same def); schedules: 2-16 threads started on a barrier, each issuing a generated query list against one cold namespace (generated taxonomy or the real defs) while a generated per-thread plan (nothing / yield / sleep 50us / spin) is applied at the caches' critical points through the sched_point hook; every answer of every thread must equal the model, no panic, completion within 30 s (a stuck schedule is re-run in a child process before it is called a deadlock); stress: 16 threads x 200 queries on cold real-defs namespaces; non-trivial: a schedule in which the hook observed two threads inside the same cache-miss window / a history of >= 3 queries; distinct by case");
     ctx.assume("schedule exploration is biased sampling of OS interleavings, not enumeration; the history half is deterministic");
     let max_defs = ctx.tier.pick(16, 30) as usize;
     ctx.run_sub::<NsCase>("history", ctx.tier.pick(3_200, 64_000), &move || ns_case(max_defs, 30), &check_history);
